@@ -41,7 +41,7 @@ from .e2_eval import Unknown, is_unknown, const_from_node
 
 OPERATOR_FUNCS = {"operator.add": ast.Add, "operator.sub": ast.Sub, "operator.mul": ast.Mult, "operator.truediv": ast.Div,
                   "operator.floordiv": ast.FloorDiv, "operator.mod": ast.Mod, "operator.pow": ast.Pow, "operator.matmul": ast.MatMult,
-                  "operator.iadd": ast.Add, "operator.imul": ast.Mult, "operator.and_": ast.BitAnd, "operator.or_": ast.BitOr,
+                  "operator.iadd": ast.Add, "operator.imul": ast.Mult, "operator.isub": ast.Sub, "operator.itruediv": ast.Div, "operator.and_": ast.BitAnd, "operator.or_": ast.BitOr,
                   "operator.lshift": ast.LShift, "operator.rshift": ast.RShift, "operator.neg": None, "operator.pos": None}
 NP_ARITH = {"np.add": (ast.Add, 2), "np.subtract": (ast.Sub, 2), "np.multiply": (ast.Mult, 2), "np.divide": (ast.Div, 2), "np.true_divide": (ast.Div, 2),
             "np.power": (ast.Pow, 2), "np.negative": (None, 1)}
@@ -2559,6 +2559,17 @@ class Interp:
                 if n > 1:
                     return pos[1]
                 raise _Raise(node)
+        if name in ("operator.iadd", "operator.isub", "operator.imul", "operator.itruediv", "operator.imatmul") and n == 2 and not kw \
+                and isinstance(pos[0], F.Rat) and not is_const(pos[0]):
+            # the in-place operators update an array object (and return it)
+            op_ = {"iadd": ast.Add, "isub": ast.Sub, "imul": ast.Mult, "itruediv": ast.Div, "imatmul": ast.MatMult}[name.split(".")[1]]
+            new_ = self.binop(op_(), pos[0], pos[1], node)
+            self._note_inplace(pos[0], node)
+            if isinstance(new_, F.Rat) and not is_unknown(new_):
+                self._set_rat(pos[0], new_)
+            else:
+                self._clobber(pos[0], f"{name} of a value that could not be evaluated")
+            return pos[0]
         if name in OPERATOR_FUNCS and not kw and n == (1 if name in ("operator.neg", "operator.pos") else 2):
             if n == 1:
                 v = to_rat(pos[0])
